@@ -14,6 +14,7 @@ import (
 //   which 0: index entry (offset, length)    1: section lengths (index, responses)
 //         2: section lengths (unknown, index) 3: section lengths (unknown, responses)
 type c05Sk struct {
+	b1                  bool // b1: primary URL in the header, index values are [variants-value, off, len]
 	file                []byte
 	start               uint64 // offset of the first section
 	li, lu, lr, off, ln uint64 // index / unknown / responses section lengths, index entry offset+length
@@ -32,9 +33,10 @@ func c05Field(sym bool, name string, concrete uint64) ([]byte, uint64) {
 	return h, concrete
 }
 
-func c05Build(layout int, which int, footer int) c05Sk {
+func c05Build(layout int, which int, footer int, b1 bool) c05Sk {
 	var sk c05Sk
 	sk.layout = layout
+	sk.b1 = b1
 	// responses section content: array(1) [ [ bstr(headers), bstr(body) ] ]
 	hdr := append(refHead(5, 1), append(refBstr([]byte(":status")), refBstr([]byte("200"))...)...)
 	body := vh.Bytes("body", 2)
@@ -45,7 +47,11 @@ func c05Build(layout int, which int, footer int) c05Sk {
 	lenH, ln := c05Field(which == 0, "len", uint64(len(item)))
 	sk.off, sk.ln = off, ln
 	index := append(refHead(5, 1), refTstr("https://a/")...)
-	index = append(index, 0x82)
+	if b1 {
+		index = append(index, 0x83, 0x40) // [ variants-value = h'', off, len ]
+	} else {
+		index = append(index, 0x82)
+	}
 	index = append(index, offH...)
 	index = append(index, lenH...)
 	unk := []byte{0x01, 0x02, 0x03}
@@ -75,6 +81,10 @@ func c05Build(layout int, which int, footer int) c05Sk {
 		}
 	}
 	f := []byte{0x85, 0x48, 0xf0, 0x9f, 0x8c, 0x90, 0xf0, 0x9f, 0x93, 0xa6, 0x44, 0x62, 0x32, 0x00, 0x00}
+	if b1 {
+		f[0], f[12] = 0x86, 0x31
+		f = append(f, refTstr("https://a/")...)
+	}
 	f = append(f, refBstr(tbl)...)
 	f = append(f, refHead(4, uint64(len(order)))...)
 	sk.start = uint64(len(f))
@@ -149,7 +159,17 @@ func refWalkB2(sk c05Sk) (url []byte, body []byte, n uint64, ok bool) {
 		}
 		u := idx[p2 : p2+l]
 		m, l, p3, hok := refReadHead(idx, p2+l)
-		if !hok || m != 4 || l != 2 {
+		if sk.b1 {
+			// [ variants-value (empty byte string: no variants), off, len ]
+			if !hok || m != 4 || l != 3 {
+				return nil, nil, 0, false
+			}
+			vm, vl, vp, vok := refReadHead(idx, p3)
+			if !vok || vm != 2 || vl != 0 {
+				return nil, nil, 0, false
+			}
+			p3 = vp
+		} else if !hok || m != 4 || l != 2 {
 			return nil, nil, 0, false
 		}
 		m, off, p4, hok := refReadHead(idx, p3)
@@ -185,7 +205,8 @@ func refWalkB2(sk c05Sk) (url []byte, body []byte, n uint64, ok bool) {
 	return url, body, cnt, true
 }
 
-// VH_C05_C10_SectionWalk: bundle.Read on a b2 skeleton (layouts [index,responses], [index,unknown,responses],
+// VH_C05_C10_SectionWalk: bundle.Read on a b2 skeleton - and a b1 skeleton (primary URL in the header, index values
+// [variants-value, off, len]; layout 0 in the quick tier, all layouts thorough) - (layouts [index,responses], [index,unknown,responses],
 // [unknown,index,responses]; footer complete / truncated / missing) in which one PAIR of length/offset fields -
 // (index offset, index length), (index len, responses len), (unknown len, index len), (unknown len, responses
 // len) - takes ALL 2^128 value combinations (symbolic) while the rest is consistent: Read must not panic; if it
@@ -197,7 +218,9 @@ func VH_C05_C10_SectionWalk() {
 	layout := vh.Choose(3)
 	which := vh.Choose(4)
 	vh.Assume(layout != 0 || which < 2)
-	sk := c05Build(layout, which, vh.Choose(3))
+	b1 := vh.Choose(2) == 1 // b1 has its own copy of the index parser (parseIndexSectionWithVariants)
+	vh.Assume(!b1 || layout == 0 || vh.Tier() == 1)
+	sk := c05Build(layout, which, vh.Choose(3), b1)
 	var b *Bundle
 	var err error
 	panicked := vh.Try(func() { b, err = Read(bytes.NewReader(sk.file)) })
